@@ -1683,6 +1683,21 @@ class Engine:
         args = [self.operand(st, fr, a) for a in t["args"]]
         dest = t["dest"]
         dest_tid = self.place_tid(fr, dest)
+        if c.get("kind") == "fnptr_shim" and len(args) == 2 and c.get("targs"):
+            # `f.call_once((a, b))` where f is a function item (`opt.map_or(d, Self::from_total_nanoseconds)`): a call of that function,
+            # dispatched like a direct call (hooks on the function apply)
+            ft = self.types[c["targs"][0]] if c["targs"][0] is not None else None
+            if ft and ft.get("k") == "fndef" and isinstance(args[1], Struct):
+                if not hasattr(self, "_fn_by_path"):
+                    self._fn_by_path = {}
+                    for g in self.F.fns:
+                        if g and "blocks" in g and g.get("def_kind") != "Closure":
+                            self._fn_by_path.setdefault(g.get("path"), []).append(g)
+                cands = self._fn_by_path.get(ft.get("path")) or []
+                if len(cands) == 1 and cands[0]["arg_count"] == len(args[1].fs):
+                    g = cands[0]
+                    c = {"fn_id": g["id"], "path": g["path"], "decl_path": g["path"], "inst": ft.get("s"), "local": bool(g.get("local")), "kind": "item"}
+                    args = list(args[1].fs)
         path = norm_path(c.get("path") or c.get("decl_path") or "")
         name = c.get("inst") or c.get("decl") or c.get("kind")
         # 1. rule-specific hooks, then std models
